@@ -44,6 +44,16 @@ CLAIMED["C08"] = dict(
     text="For every receive reachable from mpc and every malformed message at once: no index/slice/copy_from_slice on a vector of a received message below the nesting level validated on receipt unless behind a fail-closed length test on exactly that vector (or a whole-collection test); no unwrap/expect on message-derived values (AEAD plaintext, decrypt Result, popped elements) except fixed-size conversion of length-validated vectors; no received integer reaches an index, bound, divisor or allocation size; index sinks on own data under a peer-chosen optional slot are enumerated against a reviewed table; no Result of channel/protocol error types is discarded; every await polls engine futures only and no std MutexGuard lives across a yield.",
     note="Trusted: rustc MIR; bincode/serde capped pre-allocation; a user-supplied Channel errors when the peer is gone (SimpleChannel test double excluded). Time bounds and the dealer path (unreachable from mpc) are not decided.",
     ref="DESIGN.md §3 R1/R-ERR, §4 C08")
+CLAIMED["C06"] = dict(
+    technique="entropy-provenance and value-flow rules over rustc MIR (secret constructions, generator seeds, input-to-payload flow through the own-share XOR, recipient selection of mask shares)",
+    text="Structural necessary conditions of input privacy for every execution: each secret (Delta, labels, aBit string, HaAND pads, coin-toss contributions, KOS padding, base-OT scalars, OT session generators) is built from private entropy and never from a constant; every generator seed derives from entropy / OT output / generator output / a coin toss with own contribution; Context.inputs is read only in validate and input_processing and reaches a payload only through `input ^ own_share`; a mask share is stored only for the wire's owner and never for the own party. Statistical clauses are not decided.",
+    note="Trusted: rand::random / ThreadRng / Scalar::random are cryptographically secure; distributional claims (balance, uniqueness across runs) need execution and are declined.",
+    ref="DESIGN.md §3 R6.1-R6.3, §4 C06")
+CLAIMED["C07"] = dict(
+    technique="declassification analysis: per-function forward flow from Delta-typed / label sources to send payloads with sanitizers (hash, AEAD, OT sender, XOR with own key/label pad); claimed-bit MAC rule",
+    text="Every flow of the global key Delta to a message payload passes through a hash, garble::encrypt, the correlated-OT sender, or an XOR with an own Key/Label-derived value that is not a message component (Delta combined only with public or peer-held values alarms); own wire labels reach a payload only inside AEAD rows / key derivation or through the select Label ^ Delta; the aShare claimed-bit defect (root of the documented Delta leak) is recorded as a known finding. Combination leaks across several legitimate messages are value-level and not decided.",
+    note="Trusted: one-wayness of blake3 / AES hashes / AEAD / OT sender for Delta. Per-function flow with call summaries (result depends on arguments).",
+    ref="DESIGN.md §3 R6.4, §4 C07")
 NA = {}
 
 def main():
